@@ -510,6 +510,83 @@ def _erk_roles(model: Model, R: RuleResult, Z: RuleResult, I: RuleResult):
         I.bad(fi, onode, "the stepper reads the time grid outside the current interval: indices %s" % sorted(idxs))
 
 
+
+# ------------------------------------------------------------------------------------------ C07-R explicit_rk, specialised
+def _erk_specialised(model: Model, tabs) -> List[Tuple[str, bool, str, Optional[ast.AST]]]:
+    """Fall-back / cross-check of C07-R: explicit_rk partially evaluated for each *concrete* tableau its callers pass (loops over the
+    tableau unrolled, helpers followed; time grid, state and user function symbolic).  Returns (rule, ok, message, node) tuples;
+    raises Uninterpretable when the stepper is outside the evaluator's vocabulary."""
+    from ..domains.pyspec import Spec, Rec, Lazy, RecList, Opq, _num
+    fi = model.func(ERK, "explicit_rk")
+    P = fi.params()
+    if len(P) < 5:
+        raise AnchorError("explicit_rk no longer has the (tableau, fcn, t, y0, params) signature")
+    out = []
+    for tabname, vals in tabs:
+        def resolve(fexpr, _m=fi.module):
+            r = model.resolve_expr(_m, fexpr)
+            if r and r[0] == "func" and isinstance(r[1].node, ast.FunctionDef):
+                return r[1].node
+            return None
+        sp = Spec(resolve, source=fi.module.source)
+        params = Opq("params")
+        grid = sp.grid("t")
+        env = {P[0]: Rec(dict(c=list(vals["c"]), b=list(vals["b"]), a=[list(r) for r in vals["a"]])), P[1]: sp.user_fn, P[2]: grid, P[3]: S("y0"), P[4]: params}
+        try:
+            sp.run(fi.node.body, env)
+            ret = None
+        except Exception as e:
+            if type(e).__name__ == "_Return":
+                ret = e.v
+            else:
+                raise
+        what = "explicit_rk specialised to %s" % tabname
+        if len(sp.sym_loops) != 1 or not isinstance(ret, RecList):
+            raise Uninterpretable("%s: no interval loop with a list of states returned through torch.stack" % what)
+        lp = sp.sym_loops[0]
+        i = S("$i")
+        ok_range = lp["lo"].eq(C(0)) and lp["step"].eq(C(1)) and lp["hi"].eq(S("len(t)") - C(1))
+        out.append(("C07-I", ok_range, "%s: one iteration per interval, range(len(t) - 1)" % what, lp["node"]))
+        out.append(("C07-0", len(ret) == 1 and isinstance(ret[0], Rat) and ret[0].eq(S("y0")), "%s: row 0 of the result is y0 itself" % what, fi.node))
+        ok_one = len(ret.per_iter) == 1 and isinstance(ret.per_iter[0], Rat)
+        out.append(("C07-I", ok_one, "%s: exactly one state recorded per interval" % what, lp["node"]))
+        if not ok_one:
+            continue
+        new = ret.per_iter[0]
+        carried = [k for k in lp["carried_init"] if ("@prev:%s" % k) in new.symbols() or any(("@prev:%s" % k) in st.symbols() for _, st, _ in sp.fcalls)]
+        if len(carried) != 1:
+            out.append(("C07-R", False, "%s: no single loop-carried state feeds the stage evaluations (found %s)" % (what, carried), lp["node"]))
+            continue
+        k = carried[0]
+        yp = S("@prev:%s" % k)
+        init = lp["carried_init"][k]
+        after = lp["after_body"][k]
+        out.append(("C07-I", isinstance(init, Rat) and init.eq(S("y0")) and isinstance(after, Rat) and after.eq(new),
+                    "%s: the first step starts from y0 and every step from the state recorded for the previous interval" % what, lp["node"]))
+        # the expected step with this tableau's numbers, over the same atoms of the user function
+        ncalls_code = len(sp.fcalls)
+        t0 = S("t[%r]" % i)
+        t1 = S("t[%r]" % (i + C(1)))
+        h = t1 - t0
+        ks = []
+        for j, cj in enumerate(vals["c"]):
+            acc = C(0)
+            for m in range(j):
+                acc = acc + C(vals["a"][j][m]) * ks[m]
+            ks.append(sp.fatom(t0 + C(cj) * h, yp + h * acc))
+        exp = yp
+        for j, bj in enumerate(vals["b"]):
+            exp = exp + h * C(bj) * ks[j]
+        ok_step = new.eq(exp)
+        out.append(("C07-R", ok_step, "%s: the recorded state is y + h sum_j b_j k_j with k_j = f(t_i + c_j h, y + h sum_{m<j} a_jm k_m), h = t[i+1] - t[i]%s"
+                    % (what, "" if ok_step else " -- normal form %r, expected %r" % (new, exp)), lp["node"]))
+        rest_ok = all(len(r) == 1 and isinstance(r[0], tuple) and r[0][0] == "star" and r[0][1] is params for r in sp.frest)
+        out.append(("C07-R", rest_ok, "%s: the extra parameters are forwarded to every evaluation of the dynamics" % what, lp["node"]))
+        reads = {repr(r) for r in sp.grid_reads}
+        out.append(("C07-I", reads <= {repr(i), repr(i + C(1))}, "%s: the grid is read only at t[i], t[i+1] (indices %s)" % (what, sorted(reads)), lp["node"]))
+    return out
+
+
 # ------------------------------------------------------------------------------------------ C07-R rk_step
 class _Sl:
     """a[lo:hi] view of an uninterpreted array (possibly `.T`)"""
@@ -1761,6 +1838,7 @@ def rules(model: Model, tier: str) -> List[RuleResult]:
     if missing:
         raise AnalysisError("C07-D: methods %s vanished from solve_ivp's dispatch table" % missing)
     n_cond = 0
+    _fixed_tabs = []
     for name in NAMED_FIXED:
         impl = disp[name]
         tab, node, err = _fixed_tableau_of(model, impl)
@@ -1776,6 +1854,7 @@ def rules(model: Model, tier: str) -> List[RuleResult]:
         except Uninterpretable as e:
             raise AnalysisError("C07-T: cannot fold tableau %s: %s" % (tabname, e))
         n_cond += _check_fixed(T, N, name, impl, impl, tabname, vals, node, tier)
+        _fixed_tabs.append((tabname, vals))
     for name in NAMED_PAIRS:
         impl = disp[name]
         cls, node, err = _pair_class_of(model, impl)
@@ -1826,7 +1905,41 @@ def rules(model: Model, tier: str) -> List[RuleResult]:
     from .c18 import _get_method as _lookup_rule
     Gm = RuleResult(PROP, "C07-G", "the method name is resolved by an exact (case-insensitive) table lookup: a name selects its own scheme, never a neighbour", min_instances=2)
     _lookup_rule(model, Gm)
-    _erk_roles(model, R, Z, I)
+    # the generic explicit stepper: size-parametric interpretation first; the specialisation to the callers' concrete tableaux is a
+    # cross-check when both can read the code and the deciding method when only it can (restructured steppers: helpers, zip over rows,
+    # precomputed stage times).  A stepper neither can read is undecided.
+    _R0, _Z0, _I0 = (RuleResult(PROP, x.rule, x.description, min_instances=0) for x in (R, Z, I))
+    _primary_err = None
+    try:
+        _erk_roles(model, _R0, _Z0, _I0)
+    except AnalysisError as _e:
+        _primary_err = _e
+    try:
+        _spec = _erk_specialised(model, _fixed_tabs)
+    except Uninterpretable as _e2:
+        _spec = None
+        _spec_err = _e2
+    if _primary_err is not None and _spec is None:
+        raise AnalysisError("%s; the specialising evaluator cannot read it either (%s)" % (_primary_err, _spec_err))
+    for _src, _dst in ((_R0, R), (_Z0, Z), (_I0, I)):
+        if _primary_err is None or _src.findings:          # definite violations found before the interpreter gave up are kept
+            _dst.instances.extend(_src.instances)
+            _dst.findings.extend(_src.findings)
+            _dst.notes.extend(_src.notes)
+            _dst.undecided_items.extend(_src.undecided_items if _primary_err is None else [])
+            _dst.paths += _src.paths
+    _fi_erk = model.func(ERK, "explicit_rk")
+    for _rid, _ok, _msg, _node in (_spec or []):
+        _dst = {"C07-R": R, "C07-0": Z, "C07-I": I}[_rid]
+        if _ok:
+            _dst.ok(_fi_erk.fq, _msg + " (partial evaluation on the tableau's concrete coefficients)")
+        else:
+            _dst.bad(_fi_erk, _node if _node is not None else _fi_erk.node, _msg)
+    if _spec is None:
+        R.note("explicit_rk: specialising evaluator not applicable (%s); decided by the size-parametric interpretation alone" % _spec_err)
+    elif _primary_err is not None:
+        R.note("explicit_rk: the size-parametric interpreter could not read the stepper (%s); decided by specialisation to the %d tableaux the callers pass "
+               "(bounded claim: those tableaux)" % (_primary_err, len(_fixed_tabs)))
     rm = _rkstep_roles(model, R)
     # stage loop of rk_step covers every row of A and C
     lnode, sym, k0, his, inner = rm.loop
